@@ -44,7 +44,8 @@ theorem step_inv (s s' : St) (e : Ev) (h : step s e = .ok s') (hi : GInv s) : GI
   | heartbeat m g v =>
     simp only [step] at h
     split at h; · cases h
-    injection h with h; subst h; exact hi
+    split at h; · cases h
+    injection h with h; subst h; exact ⟨hi.1, hi.2, hi.3, hi.4, hi.5, hi.6, hi.7, hi.8, hi.9⟩
   | commit m g v =>
     simp only [step] at h
     split at h; · cases h
@@ -307,5 +308,51 @@ example : (run {} [.join 0 .ok 1 1, .sync 1 1 .ok, .setup 0 1 1, .claimStart 0 0
 example : (run {} [.join 0 .ok 1 1, .sync 1 1 .fence, .join 1 .ok 1 2]).toOption.isNone = true := by decide
 example : newSession 2 7 [.join .rebalance 0 0, .join .ok 7 3, .sync .fence, .coordErr, .join .ok 8 4, .sync .ok] =
     ([.join 7, .join 7, .sync 7 3, .join 0, .sync 8 4], 2, .session 8 4) := by decide
+
+/-! ### the session ends when the coordinator announces a rebalance or fences the member -/
+
+theorem hbOver_kept (s s' : St) (e : Ev) (h : step s e = .ok s') (hne : ∀ m v im ig, e ≠ .join m v im ig)
+    (ho : s.hbOver = true) : s'.hbOver = true := by
+  cases e
+  case join m v im ig => exact absurd rfl (hne m v im ig)
+  all_goals
+    simp only [step] at h <;> (repeat' split at h) <;>
+    first
+    | (cases h; done)
+    | (injection h with h; subst h; first | exact ho | (exfalso; simp_all))
+
+theorem hbOver_kept_run (es : List Ev) (s s' : St) (h : run s es = .ok s')
+    (hne : ∀ e ∈ es, ∀ m v im ig, e ≠ .join m v im ig) (ho : s.hbOver = true) : s'.hbOver = true := by
+  induction es generalizing s with
+  | nil => simp only [run] at h; injection h with h; subst h; exact ho
+  | cons e es ih =>
+    simp only [run] at h
+    split at h
+    · rename_i s1 hs
+      exact ih s1 h (fun e' he' => hne e' (List.mem_cons_of_mem _ he'))
+        (hbOver_kept s s1 e hs (hne e List.mem_cons_self) ho)
+    · cases h
+
+/-- **heartbeats_stop_after_announcement**: once the coordinator has answered a heartbeat with an error code (rebalance in
+    progress, unknown member, illegal generation, or any other), the model accepts no further heartbeat of that member
+    until it has sent a new JoinGroup: the heartbeat loop, and with it the session, ends -/
+theorem heartbeats_stop_after_announcement (s s1 s2 : St) (m : Nat) (g : Int) (v : Verdict) (es : List Ev)
+    (m' : Nat) (g' : Int) (v' : Verdict)
+    (h1 : step s (.heartbeat m g v) = .ok s1) (hv : endsHeartbeats v = true)
+    (hne : ∀ e ∈ es, ∀ a b c d, e ≠ .join a b c d) (h2 : run s1 es = .ok s2) :
+    ∃ msg, step s2 (.heartbeat m' g' v') = .error msg := by
+  have ho1 : s1.hbOver = true := by
+    simp only [step] at h1
+    split at h1; · cases h1
+    split at h1; · cases h1
+    injection h1 with h1; subst h1; exact hv
+  have ho2 := hbOver_kept_run es s1 s2 h2 hne ho1
+  simp only [step]
+  split
+  · exact ⟨_, rfl⟩
+  · simp [ho2]
+
+example : (run {} [.join 0 .ok 1 1, .sync 1 1 .ok, .setup 0 1 1, .heartbeat 1 1 .ok, .heartbeat 1 1 .rebalance,
+                   .heartbeat 1 1 .ok]).toOption.isNone = true := by decide
 
 end Props.C07
